@@ -44,7 +44,7 @@ PLAN = {
                     "random box sets incl. NaN rows, d in 1..3, page sizes 1..n+1, p in 1..31",
     ),
     'C04': dict(
-        modules=['c13_bounds', 'c14_measures', 'c08_hilbert_distance', 'glue_rep', 'glue_misc'], level='other', stages=[RTC],
+        modules=['c13_bounds', 'c14_measures', 'c07_vector', 'c08_hilbert_distance', 'glue_rep', 'glue_misc'], level='other', stages=[RTC],
         trusted_base=COMMON_TRUST, assumptions=[RTC_NOTE],
         explanation="proved: _BaseCoordinateIndexer._get_bounds for every shape of key (scalar / slice with each combination of "
                     "omitted ends, with and without an index; step rejected); the selection itself (_perform_get_item: "
@@ -63,20 +63,21 @@ PLAN = {
                     "intersects_bounds on from_pandas / parquet frames with 1..n partitions vs the pandas result",
     ),
     'C07': dict(
-        modules=['c07_hilbert'], level='proof',
+        modules=['c07_hilbert', 'c07_vector'], level='proof',
         timeout={'quick': 120, 'thorough': 900},
         trusted_base=COMMON_TRUST,
         assumptions=["no arithmetic assumption: integers are 64-bit two's-complement bit-vectors with numba's operator "
                      "semantics (>> arithmetic, // and % floor, << wrapping)",
                      "inputs are int64 values (numba types python ints as int64)",
-                     "the vectorised entry points (coordinates_from_distances, distances_from_coordinates) are plain row "
-                     "loops over the scalar functions and are not under contract"],
+                     "the vectorised entry points (coordinates_from_distances, distances_from_coordinates) are proved to be "
+                     "row-wise applications of the scalar functions, which they see through a math-mode view "
+                     "(uninterpreted ENC_n / DEC_n,j with their ranges) of the bit-vector contracts"],
         explanation="per configuration (p,n) all loops are unrolled over the operand width, so each configuration is "
                     "decided for all inputs; quick tier runs a subset of configurations, thorough all 113",
         crosscheck={'quick': 4, 'thorough': 20},
     ),
     'C08': dict(
-        modules=['c13_bounds', 'c14_measures', 'c08_hilbert_distance', 'glue_rep', 'glue_misc'], level='other', stages=[RTC],
+        modules=['c13_bounds', 'c14_measures', 'c07_vector', 'c08_hilbert_distance', 'glue_rep', 'glue_misc'], level='other', stages=[RTC],
         trusted_base=COMMON_TRUST + [NUMPY_TRUST],
         assumptions=[MATH_ARITH, "distances_from_coordinates is used through an assumed math-mode view of the "
                      "bit-vector function verified under C07", RTC_NOTE],
